@@ -1,6 +1,7 @@
 package proxy
 
 import (
+	"context"
 	"reservoir/cache"
 	"reservoir/proxy/headers"
 	"time"
@@ -121,7 +122,20 @@ func HarnessLeaderDisconnect() {
 	e := newEnv(symChoice(2), 1<<30)
 	h := hdr("Cache-Control", "max-age=60")
 	e.o.script = []originResp{{status: 200, header: h, body: []byte("BODY")}}
-	reqA := newReq("GET", "o.test", "/d", "", nil).WithContext(vCancelledCtx())
+	reqA := newReq("GET", "o.test", "/d", "", nil)
+	if symChoice(2) == 0 {
+		// the client is gone before the origin has answered
+		reqA = reqA.WithContext(vCancelledCtx())
+		vReach("disconnect-before-headers")
+	} else {
+		// the client hangs up after the 200 and its headers arrived, while the body is being
+		// transferred (and stored): the transfer breaks with the context's error
+		ctx, cancel := context.WithCancel(context.Background())
+		reqA = reqA.WithContext(ctx)
+		e.o.script = []originResp{{status: 200, header: h, body: []byte("BODY"), abort: &abortSpec{at: symRange(0, 3), err: context.Canceled, hook: cancel}},
+			{status: 200, header: h, body: []byte("BODY")}}
+		vReach("disconnect-mid-body")
+	}
 	reqB := newReq("GET", "o.test", "/d", "", nil)
 	key := cache.MakeFromRequest(reqB)
 	vClockFreeze(true)
